@@ -1,7 +1,7 @@
 (* C09 - Writing never alters its input and is deterministic.
    Only statements closed by `exact`, with Print Assumptions.  Model: model/Store.v (heap), model/Iso.v (writers). *)
 From Coq Require Import List ZArith Bool Permutation.
-From PV Require Import lib.Sx lib.Result model.Store model.Iso
+From PV Require Import lib.Sx lib.Str lib.Result model.Store model.Iso
      spec.SpecIso proofs.StoreFacts proofs.DeepcopyFacts proofs.IsoFacts proofs.RegionFacts proofs.OracleFacts
      proofs.IsoExamples model.HeapProg proofs.HeapProgFacts proofs.HeapProgInst proofs.HeapProgHist.
 Import ListNotations.
@@ -121,7 +121,9 @@ Theorem C09_write_never_out_of_fuel : forall c k o i st s,
 Proof. exact write_never_out_of_fuel. Qed.
 Print Assumptions C09_write_never_out_of_fuel.
 
-(* UNCONDITIONAL: on a well-formed store the result of write() IS output_of (kind, options, snapshot) *)
+(* UNCONDITIONAL: on a well-formed store the result of write() IS output_of (kind, options, snapshot).  `output_of` is derived from
+   the model's own make_plan (proofs/IsoFacts.v pure_result): a factorisation "the store enters only through its snapshot", not a
+   comparison with an independent renderer; for SRT / MicroDVD / SCC / WebVTT it is the snapshot itself *)
 Theorem C09_write_result_is_output_of : forall c k o i st s,
   fix15 c = true -> wf st -> below (length st) s ->
   wr_result (write c k o i st s) = output_of k o (snap FUEL st s).
@@ -335,7 +337,9 @@ Print Assumptions C09_writer_programs_reset_instance_state.
 
 (* hence, for every writer kind, options, store, argument: same object again = a fresh object = an object that wrote other
    sets or raised - store effect, result (tokens or exception), footprint, copy count.  Unlike C09_write_instance_independent
-   this is about programs in which the instance state CAN reach the output *)
+   this is about programs in which open_span and last_time CAN reach the output (tokens); global_layout is read by the WebVTT
+   program into a dead register only - for it the theorem is an analysis obligation without semantic content, its leak is decided
+   by bytes; for SRT / MicroDVD / SCC / WebVTT the token list is always empty *)
 Theorem C09_program_write_instance_independent : forall c k o i1 i2 st s,
   fix15 c = true ->
   let r1 := writeP c k o i1 st s in
@@ -356,7 +360,7 @@ Theorem C09_missing_reset_refuted :
 Proof. exact missing_reset_rejected_and_wrong. Qed.
 Print Assumptions C09_missing_reset_refuted.
 
-Example C09_example_programs_render_like_the_store_model :
+Example C09_example_programs_render_like_the_store_model_on_the_defect15_history :
   forallb (fun k => forallb (fun c =>
      forallb (fun p => zl_eqb (mo_tokens (fst (fst p))) (mo_tokens (fst (snd p)))
                        && Bool.eqb (mo_open (fst (fst p))) (mo_open (fst (snd p))))
@@ -376,3 +380,10 @@ Theorem C09_program_step_writer_object_irrelevant : forall c w wid1 wid2 k o si,
   mo_changed_below (snd r1) = mo_changed_below (snd r2).
 Proof. exact stepP_writer_object_irrelevant. Qed.
 Print Assumptions C09_program_step_writer_object_irrelevant.
+
+(* non-vacuity of C09_heap_program_frame: the analysis accepts a program that reads the argument freely and stores into a copy of a
+   part of it, and rejects the same program storing into the part itself *)
+Example C09_example_analysis_not_trivial :
+  check (block [CGet 1 0 (EInt 1); CGet 2 1 (EStr (lit "s:en")); CCopy 3 2; CSet 3 (EInt 1) (EReg 3)])%nat [] <> None /\
+  check (block [CGet 1 0 (EInt 1); CGet 2 1 (EStr (lit "s:en")); CCopy 3 2; CSet 2 (EInt 1) (EReg 3)])%nat [] = None.
+Proof. exact analysis_accepts_reads_of_the_argument. Qed.
